@@ -60,6 +60,8 @@ func runC11(c *core.Ctx) {
 		}
 		c.Min("C11-R1", k, 1, "SaveRecipientData in handleFeeRecipientAddressUpdated")
 	}
+	// the event's fields reach the rules unmodified: the logging helpers called first are pure
+	checkLoggingPure(c, "C11-R1")
 	// ---------------- R1
 	hva := eh + "handleValidatorAdded"
 	nonce := "ssv/registry/storage.Recipients.GetNextNonce(p0.nodeStorage, p1, p2.Owner)"
@@ -355,6 +357,51 @@ func checkTxnImplementation(c *core.Ctx, rule string) int {
 			"a method of the transaction handle leaves the transaction: "+bad+" — reads miss the transaction's own writes (an operator added earlier in the block looks absent), writes escape its rollback")
 	}
 	c.Min(rule, n, 8, "methods of storage/kv.badgerTxn")
+	// keys handed to badger are fresh slices (badger keeps the key slice until commit: a reused buffer
+	// makes every pending entry of a SetMany carry the last key), built from the caller's prefix
+	nk := 0
+	for _, f := range c.P.SourceFuncs(kv) {
+		if f.Signature.Recv() == nil || !strings.Contains(f.Signature.Recv().Type().String(), "badgerTxn") {
+			continue
+		}
+		a := c.E.Analyze(f)
+		for _, b := range f.Blocks {
+			for _, in := range b.Instrs {
+				ci, ok := in.(ssa.CallInstruction)
+				if !ok {
+					continue
+				}
+				cal := ci.Common().StaticCallee()
+				if cal == nil || cal.Signature.Recv() == nil || !strings.HasSuffix(cal.Signature.Recv().Type().String(), "dgraph-io/badger/v4.Txn") {
+					continue
+				}
+				if cal.Name() != "Set" && cal.Name() != "Get" && cal.Name() != "Delete" {
+					continue
+				}
+				nk++
+				key := a.D.D(ci.Common().Args[1]).String()
+				c.Decide(strings.HasPrefix(key, "append(p1, "), rule, fmt.Sprintf("badgerTxn.%s|%s key is a fresh append(prefix, key…)", topFunc(f).Name(), cal.Name()), c.P.Pos(in.Pos()), clip(key),
+					"the key handed to badger is "+clip(key)+", not a fresh append(prefix, key…): badger keeps the slice until commit, so a reused buffer aliases the keys of all pending writes")
+			}
+		}
+	}
+	c.Min(rule, nk, 4, "badger key arguments in badgerTxn")
+	// a read error is not "not found": callers test !found before err
+	var getFn *ssa.Function
+	for _, f := range c.P.SourceFuncs(kv) {
+		if r := f.Signature.Recv(); r != nil && f.Parent() == nil && f.Synthetic == "" && f.Name() == "Get" && strings.HasSuffix(r.Type().String(), "kv.badgerTxn") {
+			getFn = f
+		}
+	}
+	if getFn == nil {
+		c.Undischarged(rule, "anchor:badgerTxn.Get", "method not found")
+	} else {
+		f := getFn
+		a := c.E.Analyze(f)
+		exits, err := a.Exits("r1=false,err=nonnil")
+		c.Decide(err == nil && len(exits) == 0, rule, "badgerTxn.Get|found=false only without error", c.P.Pos(f.Pos()), "no exit returns (found=false, err≠nil)",
+			"badgerTxn.Get reports found=false together with an error: callers that test !found first (last processed block, wallet, accounts) take a failed read for an absent record")
+	}
 	return 0
 }
 
@@ -398,4 +445,85 @@ func checkNoHandleBypass(c *core.Ctx, rule string) int {
 	}
 	checkTxnImplementation(c, rule)
 	return n
+}
+
+// checkLoggingPure: the zap field helpers of logging/fields are called with live protocol data
+// (event.OperatorIds, committees, message ids) at the top of the handlers; none of them may write
+// through a slice / pointer / map parameter or hand one to a sorting or copying routine.
+func checkLoggingPure(c *core.Ctx, rule string) {
+	pkg := ssv + "logging/fields"
+	n := 0
+	for _, f := range c.P.SourceFuncs(pkg) {
+		top := topFunc(f)
+		isParam := func(v ssa.Value) bool {
+			for depth := 0; depth < 8 && v != nil; depth++ {
+				switch x := v.(type) {
+				case *ssa.Parameter:
+					return true
+				case *ssa.FreeVar:
+					return true
+				case *ssa.IndexAddr:
+					v = x.X
+				case *ssa.FieldAddr:
+					v = x.X
+				case *ssa.Slice:
+					v = x.X
+				case *ssa.UnOp:
+					v = x.X
+				case *ssa.ChangeType:
+					v = x.X
+				case *ssa.MakeInterface:
+					v = x.X
+				case *ssa.Convert:
+					v = x.X
+				case *ssa.Alloc:
+					// a parameter spilled because a closure captures it
+					if refs := x.Referrers(); refs != nil {
+						for _, r := range *refs {
+							if st, ok := r.(*ssa.Store); ok && st.Addr == ssa.Value(x) {
+								if _, isP := st.Val.(*ssa.Parameter); isP {
+									return true
+								}
+							}
+						}
+					}
+					return false
+				default:
+					return false
+				}
+			}
+			return false
+		}
+		bad := ""
+		for _, b := range f.Blocks {
+			for _, in := range b.Instrs {
+				switch in := in.(type) {
+				case *ssa.Store:
+					if _, ok := in.Addr.(*ssa.Alloc); !ok && isParam(in.Addr) && bad == "" {
+						bad = "store through a parameter at " + c.P.Pos(in.Pos())
+					}
+				case *ssa.MapUpdate:
+					if isParam(in.Map) && bad == "" {
+						bad = "map update of a parameter at " + c.P.Pos(in.Pos())
+					}
+				case *ssa.Call:
+					lbl := callLabel(in.Common())
+					if strings.HasPrefix(lbl, "sort.") || strings.HasPrefix(lbl, "slices.Sort") || strings.HasPrefix(lbl, "slices.Reverse") || lbl == "copy" || strings.HasPrefix(lbl, "golang.org/x/exp/slices.Sort") {
+						for i, arg := range in.Call.Args {
+							if (lbl != "copy" || i == 0) && isParam(arg) && bad == "" {
+								bad = lbl + " applied to a parameter at " + c.P.Pos(in.Pos())
+							}
+						}
+					}
+				}
+			}
+		}
+		n++
+		if f == top {
+			c.Decide(bad == "", rule, "logging/fields."+top.Name()+"|does not modify its arguments", c.P.Pos(f.Pos()), "no write through a parameter", "the logging helper "+top.Name()+" modifies what it is given ("+bad+"): handlers pair event.OperatorIds[i] with the i-th share key after logging it")
+		} else if bad != "" {
+			c.Fail(rule, "logging/fields."+top.Name()+"|closure does not modify captured arguments", c.P.Pos(f.Pos()), "a closure of the logging helper "+top.Name()+" modifies captured data ("+bad+")")
+		}
+	}
+	c.Min(rule, n, 30, "functions of logging/fields")
 }
